@@ -186,7 +186,7 @@ def check(case, ctx):
     after_u = _snap(untouched)
     if after_u != before_u:
         what = "content"
-        if not isinstance(after_u, tuple) or len(after_u) != 3:
+        if not isinstance(after_u, tuple) or len(after_u) != 4:
             what = "record"
         elif after_u[0] == before_u[0]:
             what = "namespaces"
